@@ -1,13 +1,13 @@
 package main
 
 import (
-	"runtime/debug"
 	"bufio"
 	"encoding/json"
 	"flag"
 	"fmt"
 	"hash/fnv"
 	"os"
+	"runtime/debug"
 	"sort"
 	"strings"
 	"time"
@@ -127,6 +127,14 @@ func main() {
 				}
 			}
 			w.Flush()
+		}
+	case "race":
+		fs := flag.NewFlagSet("race", flag.ExitOnError)
+		prop := fs.String("prop", "C07", "property")
+		rounds := fs.Int("rounds", 200, "rounds")
+		fs.Parse(os.Args[2:])
+		if runRace(*prop, *rounds) > 0 {
+			os.Exit(1)
 		}
 	default:
 		fmt.Fprintln(os.Stderr, "unknown mode")
